@@ -24,3 +24,10 @@ def units(tier, seed):
 
 run_unit = KC.run_c09
 replay = KC.replay_c09
+
+
+def level_a(tier):
+    """keymap.encode / keymap.encrypt proved order-free and equal to their specification for <=2 positional and <=2 keyword
+    arguments with symbolic values (contracts/keymap_contracts.py)"""
+    from checks import wrapperprops
+    return wrapperprops.keymap_level_a()
